@@ -225,3 +225,31 @@ def const_of(op):
     if "i" in op:
         return op["i"]
     return op.get("c")
+
+
+
+def closure_captures(fb, d):
+    """closure def -> per captured slot, the atoms (in the parent body d) of the captured operand."""
+    b = fb.mir[d]
+    fl = Flow(fb, b)
+    out = {}
+    for bl in b["blocks"]:
+        for st in bl["s"]:
+            if st["k"] == "assign" and st["rv"]["k"] == "agg" and st["rv"].get("ak") == "closure":
+                out[st["rv"]["closure"]] = [fl.atoms(o, through_calls=False) for o in st["rv"].get("ops", [])]
+    return out
+
+
+def parent_args(fb, d, c, fl_c, op, caps):
+    """Parameters of function d that operand `op` of body c (d itself or one of its closures) is taken from, seen
+    through reference plumbing and closure captures only (no calls)."""
+    at = fl_c.atoms(op, through_calls=False)
+    if c == d:
+        return sorted(x[1] for x in at if x[0] == "arg")
+    out = set()
+    for x in at:
+        if x[0] == "field" and isinstance(x[1], str) and x[1].startswith("closure:") and str(x[2]).isdigit():
+            slots = caps.get(c, [])
+            if int(x[2]) < len(slots):
+                out |= {y[1] for y in slots[int(x[2])] if y[0] == "arg"}
+    return sorted(out)
